@@ -93,8 +93,8 @@ def check(ctx):
         cases.append("P %s %s" % (h, ",".join(str(i) for i in sorted(offs))))
     log("C12: %d strings (%d exhaustive up to %d chars)" % (len(cases), sum(len(ALPHA) ** k for k in range(maxlen + 1)), maxlen))
 
-    rust = ll.run_sharded(exe, cases, "c12.rust")
-    model = ll.run_sharded(drv, cases, "c12.model")
+    rust = ll.run_sharded(exe, cases, "c12.%s.rust" % ctx.tier)
+    model = ll.run_sharded(drv, cases, "c12.%s.model" % ctx.tier)
 
     t3_bad = t2_bad = 0
     model_items = []     # (hex, item) for the vm_compute cross-check
@@ -157,7 +157,7 @@ def check(ctx):
         lo = "LOk %s" % ll.coq_bytes(f[3][1:] or "-") if f[3].startswith("=") else {"PANIC": "LPanic", "FUEL": "LFuel"}[f[3]]
         ex.append((it, "(pos_new %s %s, line_col %s %s, line_of %s %s) = (Some %s, %s, %s)" % (bs, p, bs, p, bs, p, p, lc, lo)))
     hdr = "From Coq Require Import List NArith.\nFrom PT Require Import Model.Base Model.Lines.\nImport ListNotations.\n"
-    ok, msg = ll.vm_check(ctx, "C12", hdr, ex)
+    ok, msg = ll.vm_check(ctx, "C12_%s" % ctx.tier, hdr, ex)
     ctx.oblige("extraction cross-check: %d sampled cases, vm_compute in coqc == extracted OCaml" % len(ex), ok and len(ex) > 0, msg)
 
     if not proofs_ok and not ctx.violations:
